@@ -5,7 +5,7 @@
    The class is a predicate on the INPUT: the concatenation of all bytes (items) that ever arrive
    must not be [calm]: some request that is followed by further request material is not [good]
    (its context is not keep-alive, or it has a body, or its handler may force close). *)
-Require Import AV.Lib.Base AV.H1.ConnRec AV.H1.ConnState AV.H1.ConnSpec AV.H1.ConnProofs AV.H1.ConnGraceful.
+Require Import AV.Lib.Base AV.H1.ConnRec AV.H1.ConnState AV.H1.ConnSpec AV.H1.ConnProofs AV.H1.ConnGraceful AV.H1.ConnSeal AV.H1.ConnLocal AV.H1.ConnKeepAlive.
 
 Section Quiet.
   Variable c : cfg.
@@ -56,7 +56,7 @@ Section Quiet.
     i_H : t_active (head_t s) = true ->
           dstate s = SNone /\ mreqs (messages s) = [] /\ started s = true /\ payload s = None /\
           (closed s = false \/ read_disc s = true);
-    i_ST : started s = false -> dstate s = SNone /\ messages s = [] /\ trace s = [] /\ rbuf s = [];
+    i_ST : started s = false -> dstate s = SNone /\ messages s = [] /\ closed s = false /\ payload s = None;
     i_CC : forall x, dstate s = SService x -> c_conn s = ctx_conn c x;
     i_HS : forall id, script_ok (hs_get id H0) = true -> script_ok (hs_get id (hs s)) = true;
     i_LB : c_pl s = true -> match rev (ys s) with y :: _ => has_body y = true | [] => True end;
@@ -127,7 +127,7 @@ Section Quiet.
     - destruct b as [b1 b2]. split; rewrite ?e3, ?e4; auto.
     - rewrite e5. destruct cM as [c1 c2]. split; auto.
     - rewrite e6, e7, e5, e8, e3, EC. intro T. destruct (d T) as (d1 & d2 & d3 & d5 & [d4|d4]); repeat split; auto.
-    - rewrite e8, e7, e5, e9, e12. exact e.
+    - rewrite e8, e7, e5, EC, e3. exact e.
     - intros x. rewrite e7, e10. apply f.
     - intros id Hid. apply mh. apply g. exact Hid.
     - rewrite e4, EY. exact h.
@@ -151,7 +151,8 @@ Section Quiet.
       assert (OK' : script_ok (a :: acts) = true) by (cbn; rewrite OKa; exact OKr).
       destruct a; try (inv H; split; [assumption|exact I]).
       all: repeat bmh H; try (inv H; split; [assumption|exact I]); try (eapply IH; eassumption).
-      inv H. split; [reflexivity|]. destruct c0; try discriminate; congruence.
+      + inv H. split; [reflexivity|]. destruct c0; try discriminate; congruence.
+      + inv H. split; [reflexivity|discriminate].
   Qed.
 
   Lemma hs_get_set id rid a l : hs_get id (hs_set rid a l) = if rid =? id then a else hs_get id l.
@@ -209,14 +210,14 @@ Section Quiet.
   Qed.
 
   (* the response of the request in flight *)
-  Lemma send_own s fut x ro bl bp : Inv s fut -> dstate s = SService x -> (good x = true -> ro <> OClose) ->
-    let s' := send_response c (Some x) 200 ro bl bp s in
+  Lemma send_own s fut x stt ro bl bp : Inv s fut -> dstate s = SService x -> (good x = true -> ro <> OClose) ->
+    let s' := send_response c (Some x) stt ro bl bp s in
     Inv s' fut /\ (closed s' = true -> read_disc s' = true \/ quiet_stream s' fut = true).
   Proof.
     intros I0 D RO s'.
-    destruct (send_response_fields (Some x) 200 ro bl bp s) as (f1 & f2 & f3 & f4 & f5 & f6 & f7 & f8 & f9 & f10 & f11 & f12 & f13 & f14 & f15).
+    destruct (send_response_fields (Some x) stt ro bl bp s) as (f1 & f2 & f3 & f4 & f5 & f6 & f7 & f8 & f9 & f10 & f11 & f12 & f13 & f14 & f15).
     fold s' in f1, f2, f3, f4, f5, f6, f7, f8, f9, f10, f11, f12, f13, f14, f15.
-    pose proof (send_response_trace c (Some x) 200 ro bl bp s) as T. fold s' in T.
+    pose proof (send_response_trace c (Some x) stt ro bl bp s) as T. fold s' in T.
     destruct I0 as [a b cM d e f g h i j k l m].
     assert (EP : P s' fut = P s fut) by (unfold P; rewrite f8, f9; reflexivity).
     assert (EQ : quiet_stream s' fut = quiet_stream s fut) by (unfold quiet_stream; rewrite f4, EP; reflexivity).
@@ -244,7 +245,7 @@ Section Quiet.
       rewrite CUF. specialize (RO G). rewrite (f x D).
       unfold good in G. apply andb_true_iff in G as [G _]. apply andb_true_iff in G as [G _].
       destruct (ctx_conn c x); [discriminate|]. destruct ro; congruence. }
-    assert (CLOSING : closing_ev (THead (Some x) 200 (c_v11 s) (c_head s) (resp_conn c ro s)) = true ->
+    assert (CLOSING : closing_ev (THead (Some x) stt (c_v11 s) (c_head s) (resp_conn c ro s)) = true ->
                       messages s = [] /\ (read_disc s = true \/ quiet_stream s fut = true)).
     { intro CE. assert (NG : good x = false).
       { destruct (good x) eqn:G; [|reflexivity]. rewrite (GOOD eq_refl) in CE. cbn in CE. discriminate. }
@@ -280,28 +281,42 @@ Section Quiet.
         * apply removelast_cons_good with (a := x). exact k.
         * cbn in k. apply andb_true_iff in k as [_ k]. exact k.
       + rewrite T. destruct (bl =? 0).
-        * change (trace s ++ [THead (Some x) 200 (c_v11 s) (c_head s) (resp_conn c ro s); TComplete])
-            with (trace s ++ [THead (Some x) 200 (c_v11 s) (c_head s) (resp_conn c ro s)] ++ [TComplete]).
+        * change (trace s ++ [THead (Some x) stt (c_v11 s) (c_head s) (resp_conn c ro s); TComplete])
+            with (trace s ++ [THead (Some x) stt (c_v11 s) (c_head s) (resp_conn c ro s)] ++ [TComplete]).
           rewrite app_assoc, !quiet_snoc, l. unfold closed in NC. rewrite NC.
           cbn [active_ev negb orb andb]. rewrite ?orb_true_r. reflexivity.
         * rewrite quiet_snoc, l. unfold closed in NC. rewrite NC. reflexivity.
       + intro C. unfold Terminal. rewrite f5, IN', f6, HT, f7, f11, EQ.
-        assert (CE : closing_ev (THead (Some x) 200 (c_v11 s) (c_head s) (resp_conn c ro s)) = true).
+        assert (CE : closing_ev (THead (Some x) stt (c_v11 s) (c_head s) (resp_conn c ro s)) = true).
         { unfold closed in C, NC. rewrite T in C. destruct (bl =? 0).
-          - change (trace s ++ [THead (Some x) 200 (c_v11 s) (c_head s) (resp_conn c ro s); TComplete])
-              with (trace s ++ [THead (Some x) 200 (c_v11 s) (c_head s) (resp_conn c ro s)] ++ [TComplete]) in C.
+          - change (trace s ++ [THead (Some x) stt (c_v11 s) (c_head s) (resp_conn c ro s); TComplete])
+              with (trace s ++ [THead (Some x) stt (c_v11 s) (c_head s) (resp_conn c ro s)] ++ [TComplete]) in C.
             rewrite app_assoc, !closed_snoc, NC in C. cbn [closing_ev orb] in C. rewrite orb_false_r in C. exact C.
           - rewrite closed_snoc, NC in C. exact C. }
         destruct (CLOSING CE) as [M0 Q]. repeat split; auto; try discriminate.
         destruct Q as [Q|Q]; [left; exact Q|right; left; exact Q].
     - intro C. rewrite f11, EQ.
-      assert (CE : closing_ev (THead (Some x) 200 (c_v11 s) (c_head s) (resp_conn c ro s)) = true).
+      assert (CE : closing_ev (THead (Some x) stt (c_v11 s) (c_head s) (resp_conn c ro s)) = true).
       { unfold closed in C, NC. rewrite T in C. destruct (bl =? 0).
-        - change (trace s ++ [THead (Some x) 200 (c_v11 s) (c_head s) (resp_conn c ro s); TComplete])
-            with (trace s ++ [THead (Some x) 200 (c_v11 s) (c_head s) (resp_conn c ro s)] ++ [TComplete]) in C.
+        - change (trace s ++ [THead (Some x) stt (c_v11 s) (c_head s) (resp_conn c ro s); TComplete])
+            with (trace s ++ [THead (Some x) stt (c_v11 s) (c_head s) (resp_conn c ro s)] ++ [TComplete]) in C.
           rewrite app_assoc, !closed_snoc, NC in C. cbn [closing_ev orb] in C. rewrite orb_false_r in C. exact C.
         - rewrite closed_snoc, NC in C. exact C. }
       apply (CLOSING CE).
+  Qed.
+
+  (* the handler future resolved: Ok or Err response of the request in flight *)
+  Lemma respond_own s fut x ro bl bp : Inv s fut -> dstate s = SService x -> (good x = true -> ro <> OClose) ->
+    let s' := respond c x ro bl bp s in
+    Inv s' fut /\ (closed s' = true -> read_disc s' = true \/ quiet_stream s' fut = true) /\
+    messages s' = messages s /\ read_disc s' = read_disc s /\ res s' = res s /\ started s' = started s.
+  Proof.
+    intros I0 D RO s'. set (stt := if hfail s =? 0 then 200 else hfail s).
+    destruct (send_own s fut x stt ro bl bp I0 D RO) as [I1 Q1].
+    destruct (send_response_fields (Some x) stt ro bl bp s) as (_ & _ & _ & _ & f5 & _ & f7 & _ & _ & _ & f11 & f12 & _).
+    split; [|split; [exact Q1|split; [exact f5|split; [exact f11|split; [exact f12|exact f7]]]]].
+    revert I1. apply Inv_mono; try reflexivity; auto.
+    intro LL. rewrite <- orb_assoc. apply orb_true_iff. right. exact LL.
   Qed.
 
   Lemma not_closed_busy s fut : Inv s fut -> (messages s <> [] \/ inflight s <> []) -> closed s = false.
@@ -392,11 +407,11 @@ Section Quiet.
   (* loop invariant: the read side is open, nothing is queued behind an idle dispatcher, and if a
      closing response has been encoded the unread input holds no further head *)
   Definition LI (s : st) (fut : list item) : Prop :=
-    Inv s fut /\ read_disc s = false /\ (dstate s = SNone -> messages s = []) /\ (closed s = true -> quiet_stream s fut = true).
+    Inv s fut /\ read_disc s = false /\ (dstate s = SNone -> messages s = []) /\ (closed s = true -> quiet_stream s fut = true) /\ started s = true.
 
   Lemma LI_open s fut it r : LI s fut -> c_pl s = false -> P s fut = it :: r -> closed s = false /\ linger s = false.
   Proof.
-    intros (I0 & RD & _ & Q) CP EP.
+    intros (I0 & RD & _ & Q & _) CP EP.
     assert (QF : quiet_stream s fut = false) by (unfold quiet_stream; rewrite CP, EP; reflexivity).
     split.
     - destruct (closed s); [rewrite Q in QF by reflexivity; discriminate|reflexivity].
@@ -445,9 +460,9 @@ Section Quiet.
   Lemma entered_Inv s fut x rest : LI s fut -> rbuf s = IReq x :: rest -> c_pl s = false ->
     let z := entered x rest s in
     Inv z fut /\ read_disc z = false /\ closed z = false /\ dstate z <> SNone /\
-    (dstate s = SNone -> dstate z = SService x /\ messages z = []) /\ res z = res s.
+    (dstate s = SNone -> dstate z = SService x /\ messages z = []) /\ res z = res s /\ started z = true.
   Proof.
-    intros L0 RB CP z. pose proof L0 as (I0 & RD & MN & Q).
+    intros L0 RB CP z. pose proof L0 as (I0 & RD & MN & Q & STs).
     assert (EP : P s fut = IReq x :: (rest ++ sock s ++ fut)) by (unfold P; rewrite RB; reflexivity).
     destruct (LI_open s fut _ _ L0 CP EP) as [NC NL].
     pose proof (no_merr_open s fut I0 RD) as NM.
@@ -504,10 +519,10 @@ Section Quiet.
     assert (NCz : closed z = false).
     { unfold closed. rewrite zT, !existsb_app. unfold closed in NC. rewrite NC. cbn. destruct (is_none (dstate s)); reflexivity. }
     assert (STz : started z = true).
-    { rewrite z5. destruct (started s) eqn:A; [reflexivity|]. destruct (e eq_refl) as (_ & _ & _ & R0). congruence. }
+    { rewrite z5. exact STs. }
     assert (PLs : payload s = None).
     { destruct (payload s) eqn:Pl; [|reflexivity]. destruct b as [b1 _]. rewrite b1 in CP by congruence. discriminate. }
-    split; [|split; [rewrite z9; exact RD|split; [exact NCz|split; [exact zD|split; [|exact z11]]]]].
+    split; [|split; [rewrite z9; exact RD|split; [exact NCz|split; [exact zD|split; [|split; [exact z11|exact STz]]]]]].
     2:{ intro D. destruct (zN D) as (A1 & A2 & _). auto. }
     constructor.
     - rewrite z1, z2. exact a.
@@ -533,8 +548,575 @@ Section Quiet.
         * rewrite removelast_last. exact ALLGOOD.
         * cbn in CALM. apply andb_true_iff in CALM as [GX _]. rewrite forallb_app, ALLGOOD. cbn. rewrite GX. reflexivity.
     - rewrite zT. destruct (is_none (dstate s)).
-      + rewrite !quiet_snoc, l. unfold closed in NC. rewrite NC, closed_snoc, NC. reflexivity.
-      + rewrite app_nil_r, quiet_snoc, l. reflexivity.
+      + rewrite !quiet_snoc, l. unfold closed in NC. rewrite closed_snoc, NC. reflexivity.
+      + rewrite app_nil_r, quiet_snoc, l. unfold closed in NC. rewrite NC. reflexivity.
     - rewrite NCz. discriminate.
+  Qed.
+
+  Lemma decode_loop_req f s upd x rest : rbuf s = IReq x :: rest -> c_pl s = false ->
+    decode_loop (S f) c s upd =
+    let y := booked x rest s in
+    if is_none (dstate y) then
+      let s2 := handle_request c x y in
+      if fx_close (fx c) && (read_disc s2 || linger s2 || shutdown s2) then (s2, true) else decode_loop f c s2 true
+    else decode_loop f c (set_messages (messages y ++ [MItem x]) y) true.
+  Proof. intros R Cp. cbn [decode_loop]. rewrite R, Cp. reflexivity. Qed.
+
+  (* the eager poll of handle_request *)
+  Lemma handle_request_LI s fut x rest : LI s fut -> rbuf s = IReq x :: rest -> c_pl s = false -> dstate s = SNone ->
+    let s2 := handle_request c x (booked x rest s) in
+    LI s2 fut /\ res s2 = res s.
+  Proof.
+    intros L0 RB CP D s2.
+    destruct (entered_Inv s fut x rest L0 RB CP) as (Iz & RDz & NCz & Dz & DN & Rz & STz).
+    destruct (DN D) as [Dz' Mz].
+    assert (EZ : entered x rest s = start_service c false x (booked x rest s)) by (unfold entered; rewrite D; reflexivity).
+    set (z := entered x rest s) in *.
+    subst s2. unfold handle_request. rewrite <- EZ.
+    destruct (poll_handler (rq_id x) z) as [s1 out] eqn:PH.
+    destruct (poll_handler_Inv z fut x s1 out Iz PH) as (I1 & D1 & M1 & R1 & Rs1 & L1 & S1 & G1).
+    assert (ST1 : started s1 = true) by (rewrite (poll_handler_frame _ _ _ _ PH); exact STz).
+    assert (C1 : closed s1 = closed z).
+    { unfold closed. rewrite (poll_handler_trace _ _ _ _ PH). reflexivity. }
+    destruct out as [[[k b] p]|].
+    - assert (D1' : dstate s1 = SService x) by (rewrite D1; exact Dz').
+      destruct (respond_own s1 fut x k b p I1 D1' G1) as (I2 & Q2 & f5 & f11 & f12 & f7).
+      split; [|rewrite f12, Rs1; exact Rz].
+      split; [exact I2|]. split; [rewrite f11, R1; exact RDz|]. split; [|split].
+      + intros _. rewrite f5, M1. exact Mz.
+      + intro C. destruct (Q2 C) as [X|X]; [|exact X]. rewrite f11, R1, RDz in X. discriminate.
+      + rewrite f7. exact ST1.
+    - split; [|rewrite Rs1; exact Rz].
+      split; [exact I1|]. split; [rewrite R1; exact RDz|]. split; [|split].
+      + intro X. rewrite D1, Dz' in X. discriminate.
+      + rewrite C1, NCz. discriminate.
+      + exact ST1.
+  Qed.
+
+  (* frame for changes of the unread input only (bytes move, body items are consumed, LINGER drops) *)
+  Lemma Inv_stream s s' fut fut' :
+    sig_armed s' = sig_armed s -> draining s' = draining s -> messages s' = messages s -> head_t s' = head_t s ->
+    dstate s' = dstate s -> started s' = started s -> trace s' = trace s -> c_conn s' = c_conn s -> hs s' = hs s ->
+    read_disc s' = read_disc s -> linger s' = linger s -> shutdown s' = shutdown s ->
+    Binv s' -> (c_pl s' = true -> c_pl s = true) -> (payload s = None -> payload s' = None) ->
+    (read_disc s' = true \/ (if c_pl s' then body_tail (P s' fut') else calm (P s' fut')) = true) ->
+    (has_merr (messages s) = false -> c_pl s || is_nil (P s fut) = true -> c_pl s' || is_nil (P s' fut') = true) ->
+    (quiet_stream s fut = true -> quiet_stream s' fut' = true) ->
+    Inv s fut -> Inv s' fut'.
+  Proof.
+    intros e1 e2 e5 e6 e7 e8 e9 e10 e11 e12 e13 e14 B' LB' PN W' LF QS [a b cM d e f g h i j k l m].
+    assert (EY : ys s' = ys s) by (unfold ys, inflight; rewrite e7, e5; reflexivity).
+    assert (EC : closed s' = closed s) by (unfold closed; rewrite e9; reflexivity).
+    constructor.
+    - rewrite e1, e2. exact a.
+    - exact B'.
+    - rewrite e5, e12. exact cM.
+    - rewrite e6, e7, e5, e8, EC, e12. intro T. destruct (d T) as (d1 & d2 & d3 & d5 & d4); repeat split; auto.
+    - rewrite e8, e7, e5, EC. intro S0. destruct (e S0) as (x1 & x2 & x3 & x4). auto.
+    - intros x. rewrite e7, e10. apply f.
+    - rewrite e11. exact g.
+    - rewrite EY. intro CP. apply h. apply LB'. exact CP.
+    - rewrite e13, e12. intro L. destruct (i L) as [r|q]; [left; exact r|right; apply QS; exact q].
+    - exact W'.
+    - rewrite EY. unfold last_free in *. rewrite e5.
+      destruct (has_merr (messages s)) eqn:HM; cbn [negb andb] in *; [exact k|].
+      destruct (c_pl s || is_nil (P s fut)) eqn:X.
+      + rewrite (LF eq_refl eq_refl). exact k.
+      + destruct (c_pl s' || is_nil (P s' fut')); [apply forallb_removelast; exact k|exact k].
+    - rewrite e9. exact l.
+    - rewrite EC. intro C. destruct (m C) as (m1 & m2 & m3 & m4 & m5). unfold Terminal, inflight.
+      rewrite e5, e7, e6, e8, e12, e13, e14. repeat split; auto.
+      destruct m5 as [m5|[m5|m5]]; [left; exact m5|right; left; apply QS; exact m5|right; right; exact m5].
+  Qed.
+
+  Lemma parse_error_fields s : let s' := parse_error s in
+    sig_armed s' = sig_armed s /\ draining s' = draining s /\ payload s' = None /\ c_pl s' = c_pl s /\
+    messages s' = messages s ++ [MError 400] /\ head_t s' = head_t s /\ dstate s' = dstate s /\ started s' = started s /\
+    trace s' = trace s /\ c_conn s' = c_conn s /\ hs s' = hs s /\ rbuf s' = rbuf s /\ sock s' = sock s /\
+    read_disc s' = true /\ linger s' = linger s /\ shutdown s' = shutdown s /\ res s' = res s.
+  Proof. unfold parse_error, take_payload_err, upd_chan. destruct (payload s) eqn:Pl; cbn; rewrite ?Pl; repeat split; reflexivity. Qed.
+
+  Lemma parse_error_Inv s fut it rest X : LI s fut -> c_pl s = false -> rbuf s = it :: rest ->
+    (X = set_rbuf rest s \/ X = set_reparsed true (set_rbuf rest s)) ->
+    Inv (parse_error X) fut /\ res (parse_error X) = res s /\ dstate (parse_error X) = dstate s /\
+    messages (parse_error X) = messages s ++ [MError 400].
+  Proof.
+    intros L0 CP RB HX. pose proof L0 as (I0 & RD & MN & Q & STs).
+    assert (EP : P s fut = it :: (rest ++ sock s ++ fut)) by (unfold P; rewrite RB; reflexivity).
+    destruct (LI_open s fut _ _ L0 CP EP) as [NC NL].
+    pose proof (no_merr_open s fut I0 RD) as NM.
+    assert (EX : sig_armed X = sig_armed s /\ draining X = draining s /\ c_pl X = c_pl s /\ messages X = messages s /\
+                 head_t X = head_t s /\ dstate X = dstate s /\ started X = started s /\ trace X = trace s /\
+                 c_conn X = c_conn s /\ hs X = hs s /\ linger X = linger s /\ res X = res s).
+    { destruct HX; subst X; repeat split; reflexivity. }
+    destruct EX as (x1 & x2 & x4 & x5 & x6 & x7 & x8 & x9 & x10 & x11 & x15 & x17).
+    destruct (parse_error_fields X) as (f1 & f2 & f3 & f4 & f5 & f6 & f7 & f8 & f9 & f10 & f11 & f12 & f13 & f14 & f15 & f16 & f17).
+    set (s' := parse_error X) in *.
+    rewrite x1 in f1. rewrite x2 in f2. rewrite x4 in f4. rewrite x5 in f5. rewrite x6 in f6. rewrite x7 in f7.
+    rewrite x8 in f8. rewrite x9 in f9. rewrite x10 in f10. rewrite x11 in f11. rewrite x15 in f15. rewrite x17 in f17.
+    split; [|split; [exact f17|split; [exact f7|exact f5]]].
+    destruct I0 as [a b cM d e f g h i j k l m].
+    assert (YS : ys s' = ys s) by (unfold ys, inflight; rewrite f7, f5, mreqs_app; cbn; rewrite app_nil_r; reflexivity).
+    assert (ALLGOOD : forallb good (ys s) = true).
+    { unfold last_free in k. rewrite NM, CP, EP in k. cbn in k. exact k. }
+    assert (NC' : closed s' = false) by (unfold closed; rewrite f9; exact NC).
+    constructor.
+    - rewrite f1, f2. exact a.
+    - split; rewrite f3, f4, CP; intros; congruence.
+    - rewrite f5, f14. split; [apply merr_last_snoc_err; exact NM|reflexivity].
+    - rewrite f6, f7, f5, f8, f3, f14. intro T. destruct (d T) as (d1 & d2 & d3 & _). repeat split; auto.
+      rewrite mreqs_app, d2. reflexivity.
+    - rewrite f8, STs. discriminate.
+    - intros x. rewrite f7, f10. apply f.
+    - rewrite f11. exact g.
+    - rewrite f4, CP. discriminate.
+    - intros _. left. exact f14.
+    - left. exact f14.
+    - unfold last_free. rewrite f5, has_merr_app. cbn. rewrite orb_true_r. cbn. rewrite YS. exact ALLGOOD.
+    - rewrite f9. exact l.
+    - rewrite NC'. discriminate.
+  Qed.
+
+  Lemma LI_payload s fut : LI s fut -> c_pl s = true -> exists p, payload s = Some p.
+  Proof.
+    intros (I0 & RD & _) CP. destruct (payload s) eqn:Pl; [eexists; reflexivity|].
+    destruct (i_B _ _ I0) as [_ b2]. rewrite (b2 Pl CP) in RD. discriminate.
+  Qed.
+
+  Lemma LI_wcond s fut : LI s fut -> (if c_pl s then body_tail (P s fut) else calm (P s fut)) = true.
+  Proof. intros (I0 & RD & _). destruct (i_W _ _ I0) as [X|X]; [congruence|exact X]. Qed.
+
+  Lemma decode_loop_Inv fut : forall fuel s upd, LI s fut ->
+    let s' := fst (decode_loop fuel c s upd) in
+    Inv s' fut /\ res s' = res s /\ (dstate s' = SNone -> mreqs (messages s') = []).
+  Proof.
+    induction fuel as [|fu IH]; intros s upd L0.
+    { destruct L0 as (I0 & _ & MN & _ & _). cbn. split; [exact I0|split; [reflexivity|intro D; rewrite (MN D); reflexivity]]. }
+    assert (BASE : Inv s fut /\ res s = res s /\ (dstate s = SNone -> mreqs (messages s) = [])).
+    { destruct L0 as (I0 & _ & MN & _ & _). split; [exact I0|split; [reflexivity|intro D; rewrite (MN D); reflexivity]]. }
+    destruct (rbuf s) as [|it rest] eqn:RB; [cbn [decode_loop]; rewrite RB; exact BASE|].
+    pose proof (LI_wcond s fut L0) as WC.
+    assert (EP : P s fut = it :: (rest ++ sock s ++ fut)) by (unfold P; rewrite RB; reflexivity).
+    pose proof L0 as (I0 & RD & MN & Q & STs).
+    destruct (c_pl s) eqn:CP.
+    - (* inside a request body *)
+      destruct (LI_payload s fut L0 CP) as [p Pl]. rewrite EP in WC.
+      destruct it; try (cbn [decode_loop]; rewrite RB, CP; exact BASE).
+      + (* data *)
+        cbn [decode_loop]. rewrite RB, CP. change (payload (set_rbuf rest s)) with (payload s). rewrite Pl.
+        set (s1 := upd_chan p feed_data (set_rbuf rest s)).
+        assert (EP1 : P s1 fut = rest ++ sock s ++ fut) by reflexivity.
+        assert (I1 : Inv s1 fut).
+        { pose proof (i_B _ _ I0) as B0. revert I0. apply Inv_stream; try reflexivity.
+          - revert B0. apply Binv_frame; try reflexivity; auto.
+          - intros _. exact CP.
+          - intro X. congruence.
+          - right. change (c_pl s1) with (c_pl s). rewrite CP, EP1. exact WC.
+          - intros _ _. change (c_pl s1) with (c_pl s). rewrite CP. reflexivity.
+          - unfold quiet_stream. change (c_pl s1) with (c_pl s). rewrite CP, EP, EP1. cbn. auto. }
+        assert (L1 : LI s1 fut).
+        { split; [exact I1|]. split; [exact RD|]. split; [exact MN|]. split; [|exact STs].
+          intro C. unfold quiet_stream. change (c_pl s1) with (c_pl s). rewrite CP, EP1. exact WC. }
+        destruct (IH s1 true L1) as (A & B & C). split; [exact A|split; [exact B|exact C]].
+      + (* exact end of the body *)
+        cbn [decode_loop]. rewrite RB, CP.
+        change (payload (set_c_pl false (set_rbuf rest s))) with (payload s). rewrite Pl.
+        set (s1 := set_drainable false (set_payload None (upd_chan p feed_eof (set_c_pl false (set_rbuf rest s))))).
+        cbn [body_tail] in WC.
+        assert (X0 : rest ++ sock s ++ fut = []) by (destruct (rest ++ sock s ++ fut); [reflexivity|discriminate]).
+        assert (EP1 : P s1 fut = []) by (change (P s1 fut) with (rest ++ sock s ++ fut); exact X0).
+        assert (I1 : Inv s1 fut).
+        { revert I0. apply Inv_stream; try reflexivity.
+          - split; cbn; intros; congruence.
+          - cbn. discriminate.
+          - right. change (c_pl s1) with false. cbn iota. rewrite EP1. reflexivity.
+          - intros _ _. rewrite EP1. apply orb_true_r.
+          - intros _. unfold quiet_stream. change (c_pl s1) with false. cbn iota. rewrite EP1. reflexivity. }
+        assert (L1 : LI s1 fut).
+        { split; [exact I1|]. split; [exact RD|]. split; [exact MN|]. split; [|exact STs].
+          intros _. unfold quiet_stream. change (c_pl s1) with false. cbn iota. rewrite EP1. reflexivity. }
+        destruct (IH s1 true L1) as (A & B & C). split; [exact A|split; [exact B|exact C]].
+    - (* at a message boundary *)
+      destruct it.
+      + (* a request head *)
+        rewrite (decode_loop_req fu s upd r rest RB CP). cbv zeta.
+        destruct (booked_fields r rest s) as (_ & _ & _ & _ & _ & _ & _ & _ & _ & _ & f11 & _).
+        rewrite f11. destruct (dstate s) eqn:D; cbn [is_none].
+        * destruct (handle_request_LI s fut r rest L0 RB CP D) as [L2 R2].
+          rewrite fx2. cbn [andb]. destruct (IH _ true L2) as (A & B & C).
+          split; [exact A|split; [rewrite B; exact R2|exact C]].
+        * destruct (entered_Inv s fut r rest L0 RB CP) as (Iz & RDz & NCz & Dz & _ & Rz & STz).
+          unfold entered in *. rewrite D in *. cbn [is_none] in *.
+          assert (L2 : LI (set_messages (messages (booked r rest s) ++ [MItem r]) (booked r rest s)) fut).
+          { split; [exact Iz|]. split; [exact RDz|]. split; [intro X; contradiction|]. split; [rewrite NCz; discriminate|exact STz]. }
+          destruct (IH _ true L2) as (A & B & C). split; [exact A|split; [rewrite B; exact Rz|exact C]].
+        * destruct (entered_Inv s fut r rest L0 RB CP) as (Iz & RDz & NCz & Dz & _ & Rz & STz).
+          unfold entered in *. rewrite D in *. cbn [is_none] in *.
+          assert (L2 : LI (set_messages (messages (booked r rest s) ++ [MItem r]) (booked r rest s)) fut).
+          { split; [exact Iz|]. split; [exact RDz|]. split; [intro X; contradiction|]. split; [rewrite NCz; discriminate|exact STz]. }
+          destruct (IH _ true L2) as (A & B & C). split; [exact A|split; [rewrite B; exact Rz|exact C]].
+      + (* partial head *)
+        cbn [decode_loop]. rewrite RB, CP. destruct rest as [|it2 r2] eqn:RE; [exact BASE|]. rewrite <- RE in *.
+        destruct (LI_open s fut _ _ L0 CP EP) as [NC NL].
+        set (s1 := set_rbuf rest s).
+        assert (EP1 : P s1 fut = rest ++ sock s ++ fut) by reflexivity.
+        rewrite EP in WC. cbn [calm] in WC.
+        assert (I1 : Inv s1 fut).
+        { pose proof (i_B _ _ I0) as B0. revert I0. apply Inv_stream; try reflexivity.
+          - exact B0.
+          - auto.
+          - auto.
+          - right. change (c_pl s1) with (c_pl s). rewrite CP, EP1. exact WC.
+          - intros _ X. rewrite CP, EP in X. discriminate.
+          - unfold quiet_stream. rewrite CP, EP. discriminate. }
+        assert (L1 : LI s1 fut).
+        { split; [exact I1|]. split; [exact RD|]. split; [exact MN|]. split; [change (closed s1) with (closed s); rewrite NC; discriminate|exact STs]. }
+        destruct (IH s1 upd L1) as (A & B & C). split; [exact A|split; [exact B|exact C]].
+      + cbn [decode_loop]. rewrite RB, CP. cbn [fst].
+        destruct (parse_error_Inv s fut _ rest _ L0 CP RB (or_intror eq_refl)) as (I1 & R1 & D1 & M1).
+        split; [exact I1|split; [exact R1|]]. intro D. rewrite M1, mreqs_app. rewrite D1 in D. rewrite (MN D). reflexivity.
+      + cbn [decode_loop]. rewrite RB, CP. cbn [fst].
+        destruct (parse_error_Inv s fut _ rest _ L0 CP RB (or_intror eq_refl)) as (I1 & R1 & D1 & M1).
+        split; [exact I1|split; [exact R1|]]. intro D. rewrite M1, mreqs_app. rewrite D1 in D. rewrite (MN D). reflexivity.
+      + cbn [decode_loop]. rewrite RB, CP. cbn [fst].
+        destruct (parse_error_Inv s fut _ rest _ L0 CP RB (or_introl eq_refl)) as (I1 & R1 & D1 & M1).
+        split; [exact I1|split; [exact R1|]]. intro D. rewrite M1, mreqs_app. rewrite D1 in D. rewrite (MN D). reflexivity.
+  Qed.
+
+
+  (* a history event that is neither a head nor a service call nor closing *)
+  Lemma Inv_silent s fut e : active_ev e = false -> closing_ev e = false -> Inv s fut -> Inv (add_trace e s) fut.
+  Proof.
+    intros A Cl [a b cM d e0 f g h i j k l m].
+    assert (EC : closed (add_trace e s) = closed s) by (unfold closed, add_trace; cbn; rewrite closed_snoc, Cl; apply orb_false_r).
+    constructor; try assumption.
+    - rewrite EC. exact d.
+    - rewrite EC. exact e0.
+    - unfold add_trace. cbn. rewrite quiet_snoc, l, A. cbn. apply orb_true_r.
+    - rewrite EC. exact m.
+  Qed.
+
+  Lemma body_tail_suffix a b : body_tail (a ++ b) = true -> body_tail b = true.
+  Proof.
+    induction a as [|x a IH]; cbn; [auto|]. destruct x; try discriminate; [exact IH|].
+    intro H. destruct (a ++ b) eqn:E; [|discriminate]. apply app_eq_nil in E as [_ ->]. reflexivity.
+  Qed.
+
+  (* end of a streamed response body *)
+  Lemma body_end_Inv s fut who : Inv s fut -> dstate s = SSendPayload who -> Inv (body_end c s) fut.
+  Proof.
+    intros I0 D.
+    assert (STT : started s = true) by (apply (started_busy s fut I0); left; rewrite D; discriminate).
+    destruct I0 as [a b cM d e f g h i j k l m].
+    assert (HT : t_active (head_t s) = false).
+    { destruct (t_active (head_t s)) eqn:A; [|reflexivity]. destruct (d eq_refl) as (d1 & _). congruence. }
+    set (s' := body_end c s).
+    assert (F : sig_armed s' = sig_armed s /\ draining s' = draining s /\ payload s' = payload s /\ c_pl s' = c_pl s /\
+                messages s' = messages s /\ head_t s' = head_t s /\ started s' = started s /\ rbuf s' = rbuf s /\ sock s' = sock s /\
+                hs s' = hs s /\ read_disc s' = read_disc s /\ dstate s' = SNone /\ trace s' = trace s ++ [TComplete] /\
+                (linger s' = true -> linger s = true \/ close_unread s = true) /\
+                ((linger s || shutdown s) = true -> (linger s' || shutdown s') = true)).
+    { subst s'. unfold body_end, complete_flags, finish_hook, add_trace. rewrite fx2. cbn [andb].
+      repeat bm; cbn; repeat split; auto; intros; rewrite ?orb_true_r; auto.
+      all: try (right; match goal with H : _ && close_unread _ = true |- _ => apply andb_true_iff in H as [_ H]; exact H end). }
+    destruct F as (f1 & f2 & f3 & f4 & f5 & f6 & f7 & f8 & f9 & f10 & f11 & f12 & T & f14 & f15).
+    assert (EP : P s' fut = P s fut) by (unfold P; rewrite f8, f9; reflexivity).
+    assert (EQ : quiet_stream s' fut = quiet_stream s fut) by (unfold quiet_stream; rewrite f4, EP; reflexivity).
+    assert (YS : ys s' = ys s) by (unfold ys, inflight; rewrite f12, f5, D; reflexivity).
+    assert (EL : last_free s' fut = last_free s fut) by (unfold last_free; rewrite f5, f4, EP; reflexivity).
+    assert (EC : closed s' = closed s) by (unfold closed; rewrite T, closed_snoc; apply orb_false_r).
+    constructor.
+    - rewrite f1, f2. exact a.
+    - destruct b as [b1 b2]. split; rewrite ?f3, ?f4, ?f11; auto.
+    - rewrite f5, f11. exact cM.
+    - rewrite f6, HT. discriminate.
+    - rewrite f7, STT. discriminate.
+    - intros y Dy. rewrite f12 in Dy. discriminate.
+    - rewrite f10. exact g.
+    - rewrite f4, YS. exact h.
+    - rewrite EQ, f11. intro L. destruct (f14 L) as [L1|L1]; [exact (i L1)|].
+      unfold close_unread in L1. destruct (payload s) eqn:Pl; [|discriminate].
+      destruct b as [b1 _]. assert (CP : c_pl s = true) by (apply b1; congruence).
+      destruct j as [j|j]; [left; exact j|right]. unfold quiet_stream. rewrite CP in *. exact j.
+    - rewrite f11, f4, EP. exact j.
+    - rewrite EL, YS. exact k.
+    - rewrite T, quiet_snoc, l. cbn. apply orb_true_r.
+    - rewrite EC. intro C. destruct (m C) as (m1 & m2 & m3 & m4 & m5). unfold Terminal, inflight.
+      rewrite f5, f12, f6, f7, f11, EQ. repeat split; auto.
+      destruct m5 as [m5|[m5|m5]]; auto.
+  Qed.
+
+  (* poll_request: the gates, then the decode loop *)
+  Lemma poll_request_Inv s fut : Inv s fut -> started s = true ->
+    (dstate s = SNone -> mreqs (messages s) = []) ->
+    (closed s = true -> read_disc s = true \/ quiet_stream s fut = true) ->
+    let s' := fst (poll_request c s) in
+    Inv s' fut /\ res s' = res s /\ (dstate s' = SNone -> mreqs (messages s') = []).
+  Proof.
+    intros I0 STT P9 LQ. unfold poll_request.
+    destruct (i_sig _ _ I0) as [_ DR]. rewrite DR. cbn [andb].
+    destruct ((MAXP <=? lenN (messages s)) || read_disc s) eqn:G; [cbn; auto|].
+    apply orb_false_iff in G as [_ RD].
+    apply decode_loop_Inv. split; [exact I0|]. split; [exact RD|]. split; [|split; [|exact STT]].
+    - intro D. apply no_msgs; [apply P9; exact D|apply (no_merr_open s fut I0 RD)].
+    - intro C. destruct (LQ C) as [X|X]; [congruence|exact X].
+  Qed.
+
+  Ltac mono := try reflexivity; auto; try (let LL := fresh "LL" in intro LL; rewrite <- orb_assoc; apply orb_true_iff; right; exact LL).
+
+  Definition P9 (s : st) : Prop := res s = 0 -> dstate s = SNone -> mreqs (messages s) = [].
+
+  Lemma poll_response_Inv fut : forall fuel s, Inv s fut ->
+    Inv (poll_response fuel c s) fut /\ P9 (poll_response fuel c s).
+  Proof.
+    induction fuel as [|fu IH]; intros s I0; cbn [poll_response]; rewrite ?body_if.
+    { split; [revert I0; apply Inv_mono; mono|]. unfold P9. intro X. change (9 = 0) in X. discriminate X. }
+    destruct (dstate s) eqn:D.
+    - destruct (i_sig _ _ I0) as [_ DR]. rewrite DR.
+      destruct (messages s) as [|[q|stt] ms] eqn:M0.
+      + (* idle decision *)
+        cbv zeta. match goal with |- context [set_keep_alive ?k s] => destruct k end.
+        * split; [|unfold P9; cbn; rewrite M0; reflexivity].
+          apply Inv_silent; [reflexivity|reflexivity|]. revert I0. apply Inv_mono; mono.
+        * split; [|unfold P9; cbn; rewrite M0; reflexivity].
+          revert I0. apply Inv_mono; mono.
+      + apply IH. apply start_pop; assumption.
+      + apply IH. apply send_err; assumption.
+    - destruct (poll_handler (rq_id r) s) as [s1 out] eqn:PH.
+      destruct (poll_handler_Inv s fut r s1 out I0 PH) as (I1 & D1 & M1 & R1 & Rs1 & L1 & S1 & G1).
+      assert (D1' : dstate s1 = SService r) by (rewrite D1; exact D).
+      destruct out as [[[k b] p]|].
+      + apply IH. apply respond_own; assumption.
+      + destruct (poll_request c s1) as [s2 upd] eqn:PR.
+        assert (ST1 : started s1 = true) by (apply (started_busy s1 fut I1); left; rewrite D1'; discriminate).
+        destruct (poll_request_Inv s1 fut I1 ST1) as (I2 & R2 & N2).
+        * intro X. congruence.
+        * intro C. destruct (i_term _ _ I1 C) as (_ & m2 & _). unfold inflight in m2. rewrite D1' in m2. discriminate.
+        * rewrite PR in I2, R2, N2. cbn in I2, R2, N2.
+          destruct upd; [apply IH; exact I2|]. split; [exact I2|]. intros _ X. apply N2. exact X.
+    - bm.
+      + split; [revert I0; apply Inv_mono; mono|]. unfold P9. cbn. rewrite D. discriminate.
+      + apply IH.
+        match goal with |- Inv (body_end c ?x) fut => assert (Ix : Inv x fut) end.
+        { destruct (0 <? bleft s); [|exact I0]. destruct (bskip s); revert I0; apply Inv_mono; mono. }
+        eapply body_end_Inv; [exact Ix|]. destruct (0 <? bleft s); [|exact D]. destruct (bskip s); exact D.
+  Qed.
+
+  (* ---- the events ---- *)
+  Lemma Inv_head_off s fut : Inv s fut -> Inv (set_head_t TInactive s) fut.
+  Proof.
+    intros [a b cM d e f g h i j k l m]. constructor; try assumption.
+    - cbn. discriminate.
+    - intro C. destruct (m C) as (m1 & m2 & m3 & m4 & m5). unfold Terminal. repeat split; auto. cbn. discriminate.
+  Qed.
+
+  (* the 408 of the head timer *)
+  Lemma head408_Inv s fut : Inv s fut -> t_ready (head_t s) (now s) = true -> shutdown s = false -> read_disc s = false ->
+    let s' := set_shutdown true (send_response c None 408 ONone 0 0 (set_head_t TInactive s)) in
+    Inv s' fut /\ P9 s'.
+  Proof.
+    intros I0 TR SH RD s'.
+    assert (TA : t_active (head_t s) = true) by (unfold t_ready in TR; destruct (head_t s); try discriminate; reflexivity).
+    destruct (i_H _ _ I0 TA) as (D & MR & STT & PL & [NC|X]); [|congruence].
+    pose proof (no_msgs _ MR (no_merr_open s fut I0 RD)) as M0.
+    set (s1 := set_head_t TInactive s).
+    pose proof (Inv_head_off s fut I0) as I1. fold s1 in I1.
+    destruct (send_response_fields None 408 ONone 0 0 s1) as (f1 & f2 & f3 & f4 & f5 & f6 & f7 & f8 & f9 & f10 & f11 & f12 & f13 & f14 & f15).
+    pose proof (send_response_trace c None 408 ONone 0 0 s1) as T. rewrite N.eqb_refl in T, f13.
+    set (s2 := send_response c None 408 ONone 0 0 s1) in *.
+    destruct I1 as [a b cM d e f g h i j k l m].
+    assert (YS : ys s' = []) by (unfold ys, inflight; change (dstate s') with (dstate s2); change (messages s') with (messages s2); rewrite f13, f5; change (messages s1) with (messages s); rewrite M0; reflexivity).
+    assert (CUF : cu' s1 = false) by (unfold cu', close_unread; change (payload s1) with (payload s); rewrite PL; reflexivity).
+    split.
+    - constructor.
+      + change (sig_armed s') with (sig_armed s2). change (draining s') with (draining s2). rewrite f1, f2. exact a.
+      + destruct b as [b1 b2]. split; change (payload s') with (payload s2); change (c_pl s') with (c_pl s2); change (read_disc s') with (read_disc s2); rewrite ?f3, ?f4, ?f11; auto.
+      + change (messages s') with (messages s2). change (read_disc s') with (read_disc s2). rewrite f5, f11. exact cM.
+      + change (head_t s') with (head_t s2). rewrite f6. cbn. discriminate.
+      + change (started s') with (started s2). rewrite f7. change (started s1) with (started s). rewrite STT. discriminate.
+      + intros y Dy. change (dstate s') with (dstate s2) in Dy. rewrite f13 in Dy. discriminate.
+      + change (hs s') with (hs s2). rewrite f10. exact g.
+      + rewrite YS. intros _. exact I.
+      + change (linger s') with (linger s2). intro L. destruct (f14 L) as [L1|L1]; [|congruence].
+        change (read_disc s') with (read_disc s2). rewrite f11.
+        assert (EQ : quiet_stream s' fut = quiet_stream s1 fut) by (unfold quiet_stream, P; change (c_pl s') with (c_pl s2); change (rbuf s') with (rbuf s2); change (sock s') with (sock s2); rewrite f4, f8, f9; reflexivity).
+        rewrite EQ. exact (i L1).
+      + change (read_disc s') with (read_disc s2). rewrite f11.
+        assert (EP : P s' fut = P s1 fut) by (unfold P; change (rbuf s') with (rbuf s2); change (sock s') with (sock s2); rewrite f8, f9; reflexivity).
+        change (c_pl s') with (c_pl s2). rewrite f4, EP. exact j.
+      + rewrite YS. destruct (last_free s' fut); reflexivity.
+      + change (trace s') with (trace s2). rewrite T. change (trace s1) with (trace s).
+        change (trace s ++ [THead None 408 (c_v11 s1) (c_head s1) (resp_conn c ONone s1); TComplete])
+          with (trace s ++ [THead None 408 (c_v11 s1) (c_head s1) (resp_conn c ONone s1)] ++ [TComplete]).
+        rewrite app_assoc, !quiet_snoc. change (quiet_after_close (trace s1)) with (quiet_after_close (trace s)) in l. rewrite l.
+        unfold closed in NC. rewrite NC. cbn [active_ev negb orb andb]. rewrite ?orb_true_r. reflexivity.
+      + intros _. unfold Terminal, inflight. change (messages s') with (messages s2). change (dstate s') with (dstate s2).
+        change (head_t s') with (head_t s2). change (started s') with (started s2).
+        rewrite f5, f13, f6, f7. change (messages s1) with (messages s). change (started s1) with (started s).
+        repeat split; auto; try (cbn; discriminate). right. right. cbn. apply orb_true_r.
+    - unfold P9. intros _ _. change (messages s') with (messages s2). rewrite f5. change (messages s1) with (messages s). rewrite M0. reflexivity.
+  Qed.
+
+  Lemma env_Inv s r fut : Inv s (r_arrive r ++ fut) -> Inv (env_step r s) fut.
+  Proof.
+    intro I0. pose proof (i_B _ _ I0) as B0. pose proof (i_W _ _ I0) as W0.
+    assert (EP : P (env_step r s) fut = P s (r_arrive r ++ fut)).
+    { unfold P, env_step. destruct (r_rd r); cbn; rewrite <- !app_assoc; reflexivity. }
+    revert I0. apply Inv_stream; try (unfold env_step; destruct (r_rd r); reflexivity).
+    - revert B0. apply Binv_frame; unfold env_step; destruct (r_rd r); auto.
+    - unfold env_step; destruct (r_rd r); auto.
+    - unfold env_step; destruct (r_rd r); auto.
+    - revert W0. rewrite EP.
+      replace (c_pl (env_step r s)) with (c_pl s) by (unfold env_step; destruct (r_rd r); reflexivity).
+      replace (read_disc (env_step r s)) with (read_disc s) by (unfold env_step; destruct (r_rd r); reflexivity). auto.
+    - rewrite EP. replace (c_pl (env_step r s)) with (c_pl s) by (unfold env_step; destruct (r_rd r); reflexivity). auto.
+    - unfold quiet_stream. rewrite EP. replace (c_pl (env_step r s)) with (c_pl s) by (unfold env_step; destruct (r_rd r); reflexivity). auto.
+  Qed.
+
+  (* read_available moves bytes from the socket into read_buf *)
+  Lemma read_available_Inv s fut s1 d io : Inv s fut -> read_available s = (s1, d, io) ->
+    Inv s1 fut /\ dstate s1 = dstate s /\ messages s1 = messages s /\ res s1 = res s /\ started s1 = started s /\
+    linger s1 = linger s /\ shutdown s1 = shutdown s /\ read_disc s1 = read_disc s /\ trace s1 = trace s /\
+    quiet_stream s1 fut = quiet_stream s fut /\ keep_alive s1 = keep_alive s.
+  Proof.
+    intros I0 RA. unfold read_available in RA.
+    destruct (read_disc s) eqn:RD; [inv RA; split; [exact I0|repeat split; auto]|].
+    assert (G : forall x, (x = s \/ x = set_sock [] (set_rbuf (rbuf s ++ sock s) s) \/ x = unfinish (set_sock [] (set_rbuf (rbuf s ++ sock s) s)) \/
+                           x = unfinish s \/ x = unfinish (unfinish (set_sock [] (set_rbuf (rbuf s ++ sock s) s)))) ->
+      Inv x fut /\ dstate x = dstate s /\ messages x = messages s /\ res x = res s /\ started x = started s /\
+      linger x = linger s /\ shutdown x = shutdown s /\ read_disc x = read_disc s /\ trace x = trace s /\
+      quiet_stream x fut = quiet_stream s fut /\ keep_alive x = keep_alive s).
+    { intros x HX.
+      assert (EP : P x fut = P s fut /\ c_pl x = c_pl s).
+      { unfold P, unfinish in *. destruct HX as [->|[->|[->|[->| ->]]]]; repeat bm; cbn; rewrite <- ?app_assoc, ?app_nil_r; auto. }
+      destruct EP as [EP CPx].
+      assert (FR : sig_armed x = sig_armed s /\ draining x = draining s /\ messages x = messages s /\ head_t x = head_t s /\
+                   dstate x = dstate s /\ started x = started s /\ trace x = trace s /\ c_conn x = c_conn s /\ hs x = hs s /\
+                   read_disc x = read_disc s /\ linger x = linger s /\ shutdown x = shutdown s /\ payload x = payload s /\
+                   res x = res s /\ keep_alive x = keep_alive s).
+      { unfold unfinish in *. destruct HX as [->|[->|[->|[->| ->]]]]; repeat bm; repeat split; reflexivity. }
+      destruct FR as (x1 & x2 & x3 & x4 & x5 & x6 & x7 & x8 & x9 & x10 & x11 & x12 & x13 & x14 & x15).
+      split; [|repeat split; auto; unfold quiet_stream; rewrite CPx, EP; reflexivity].
+      pose proof (i_B _ _ I0) as B0. pose proof (i_W _ _ I0) as W0.
+      revert I0. apply Inv_stream; auto.
+      - revert B0. apply Binv_frame; auto. intro. congruence.
+      - intro. congruence.
+      - intro. congruence.
+      - rewrite x10, CPx, EP. exact W0.
+      - rewrite CPx, EP. auto.
+      - unfold quiet_stream. rewrite CPx, EP. auto. }
+    destruct (negb (is_nil (sock s))); destruct (sock_end s); inv RA;
+      match goal with |- Inv ?x fut /\ _ => destruct (G x) as (g1 & g2 & g3 & g4 & g5 & g6 & g7 & g8 & g9 & g10 & g11); [auto 6|] end;
+      (split; [exact g1|repeat split; try assumption; congruence]).
+  Qed.
+
+  (* first poll: STARTED, head timer armed (or left alone when the request timeout is 0) *)
+  Lemma Inv_started s fut T : Inv s fut -> started s = false -> (T = head_t s \/ True) ->
+    Inv (set_head_t T (set_started true s)) fut.
+  Proof.
+    intros I0 S0 _. destruct (i_ST _ _ I0 S0) as (D & M & NC & PL).
+    destruct I0 as [a b cM d e f g h i j k l m].
+    constructor; try assumption.
+    - intros _. cbn. rewrite M. repeat split; auto.
+    - cbn. discriminate.
+    - change (closed (set_head_t T (set_started true s))) with (closed s). rewrite NC. discriminate.
+  Qed.
+
+  (* the peer closed its sending side: READ_DISCONNECT, the payload is terminated *)
+  Lemma Inv_disc s fut : Inv s fut -> Inv (take_payload_err true (set_read_disc true s)) fut.
+  Proof.
+    intro I0.
+    assert (I1 : Inv (set_read_disc true s) fut).
+    { revert I0. apply Inv_mono; try reflexivity; auto. }
+    unfold take_payload_err. destruct (payload (set_read_disc true s)) eqn:PL; [|exact I1].
+    revert I1. apply Inv_stream; try reflexivity; auto.
+    - split; cbn; intros; congruence.
+  Qed.
+
+  Lemma body_tail_is_nil_suffix (a b : list item) : is_nil (a ++ b) = true -> is_nil b = true.
+  Proof. destruct a; cbn; [auto|discriminate]. Qed.
+
+  (* LINGER: flush, timer, read and drop *)
+  Lemma linger_Inv s fut wb : Inv s fut -> linger s = true ->
+    Inv (poll_linger c wb s) fut /\ dstate (poll_linger c wb s) = dstate s /\ messages (poll_linger c wb s) = messages s /\
+    (res (poll_linger c wb s) = 0 -> res s = 0).
+  Proof.
+    intros I0 L. unfold poll_linger.
+    destruct (flush wb s) as [s1 ok] eqn:E1.
+    assert (A1 : Inv s1 fut /\ dstate s1 = dstate s /\ messages s1 = messages s /\ res s1 = res s /\ linger s1 = true).
+    { unfold flush in E1. repeat bmh E1; inv E1; (split; [try exact I0; revert I0; apply Inv_mono; mono|repeat split; auto]). }
+    destruct A1 as (I1 & D1 & M1 & R1 & L1). destruct ok; cbn [negb]; [|split; [exact I1|repeat split; auto; congruence]].
+    destruct (ensure_linger_timer c s1) as [s2 have] eqn:E2.
+    assert (A2 : Inv s2 fut /\ dstate s2 = dstate s /\ messages s2 = messages s /\ res s2 = res s /\ linger s2 = true).
+    { unfold ensure_linger_timer in E2. repeat bmh E2; inv E2; (split; [try exact I1; revert I1; apply Inv_mono; mono|repeat split; auto]). }
+    destruct A2 as (I2 & D2 & M2 & R2 & L2). destruct have; cbn [negb].
+    2:{ split; [|cbn; repeat split; auto; congruence]. revert I2. apply Inv_mono; mono. all: try (cbn; discriminate). all: try (intros _; cbn; rewrite ?orb_true_r; reflexivity). }
+    destruct (read_available s2) as [[s3 d] io] eqn:E3.
+    destruct (read_available_Inv s2 fut s3 d io I2 E3) as (I3 & D3 & M3 & R3 & ST3 & L3 & SH3 & RD3 & T3 & Q3 & _).
+    destruct io.
+    { split; [revert I3; apply Inv_mono; mono|cbn; repeat split; try congruence]. all: try (intro X; discriminate X). }
+    assert (L3' : linger s3 = true) by congruence.
+    (* drop whatever was read *)
+    assert (I4 : Inv (if is_nil (rbuf s3) then s3 else add_trace (TDiscard (length (rbuf s3))) (set_rbuf [] s3)) fut).
+    { destruct (is_nil (rbuf s3)) eqn:NR; [exact I3|].
+      apply Inv_silent; [reflexivity|reflexivity|].
+      pose proof (i_B _ _ I3) as B3. pose proof (i_LG _ _ I3 L3') as LG3. pose proof (i_W _ _ I3) as W3.
+      revert I3. apply Inv_stream; try reflexivity; auto.
+      - destruct LG3 as [X|X]; [left; exact X|right]. change (c_pl (set_rbuf [] s3)) with (c_pl s3).
+        unfold quiet_stream, P in *. cbn. destruct (c_pl s3); [eapply body_tail_suffix; exact X|].
+        apply body_tail_is_nil_suffix in X. destruct (sock s3 ++ fut); [reflexivity|discriminate].
+      - intros _ X. change (c_pl (set_rbuf [] s3)) with (c_pl s3). apply orb_true_iff in X as [X|X]; [rewrite X; reflexivity|].
+        unfold P in *. cbn. apply body_tail_is_nil_suffix in X. rewrite X. apply orb_true_r.
+      - unfold quiet_stream, P. cbn. change (c_pl (set_rbuf [] s3)) with (c_pl s3). destruct (c_pl s3).
+        + apply body_tail_suffix.
+        + apply body_tail_is_nil_suffix. }
+    set (s4 := if is_nil (rbuf s3) then s3 else add_trace (TDiscard (length (rbuf s3))) (set_rbuf [] s3)) in *.
+    assert (F4 : dstate s4 = dstate s /\ messages s4 = messages s /\ res s4 = res s).
+    { subst s4. destruct (is_nil (rbuf s3)); cbn; repeat split; congruence. }
+    destruct F4 as (D4 & M4 & R4).
+    destruct d; [|split; [exact I4|repeat split; auto; congruence]].
+    split; [|cbn; repeat split; auto; congruence].
+    revert I4. apply Inv_mono; mono. all: try (cbn; discriminate). all: try (intros _; cbn; rewrite ?orb_true_r; reflexivity).
+  Qed.
+
+  Lemma read_phase_Inv s fut : Inv s fut -> P9 s -> res s = 0 -> linger s = false -> shutdown s = false ->
+    Inv (read_phase c s) fut /\ P9 (read_phase c s).
+  Proof.
+    intros I0 N9 R0 L0 S0. unfold read_phase.
+    destruct (read_available s) as [[s1 d] io] eqn:E1.
+    destruct (read_available_Inv s fut s1 d io I0 E1) as (I1 & D1 & M1 & R1 & ST1 & L1 & SH1 & RD1 & T1 & Q1 & _).
+    destruct io.
+    { split; [revert I1; apply Inv_mono; mono|]. unfold P9. intro X. change (2 = 0) in X. discriminate X. }
+    set (s2 := if negb (is_nil (rbuf s1)) && keep_alive s1 then set_ka_tm TInactive (set_keep_alive false s1) else s1).
+    assert (I2 : Inv s2 fut) by (subst s2; bm; [revert I1; apply Inv_mono; mono|exact I1]).
+    assert (F2 : dstate s2 = dstate s /\ messages s2 = messages s /\ res s2 = res s /\ started s2 = started s /\
+                 linger s2 = false /\ shutdown s2 = false /\ read_disc s2 = read_disc s /\ trace s2 = trace s /\
+                 quiet_stream s2 fut = quiet_stream s fut).
+    { subst s2. bm; cbn; repeat split; try congruence; exact Q1. }
+    destruct F2 as (D2 & M2 & R2 & ST2 & L2 & SH2 & RD2 & T2 & Q2).
+    set (s3 := if started s2 then s2 else (let s := set_started true s2 in if req_to c =? 0 then s else set_head_t (arm (req_to c) s) s)).
+    assert (I3 : Inv s3 fut /\ started s3 = true).
+    { subst s3. destruct (started s2) eqn:S2; [split; [exact I2|exact S2]|]. cbv zeta.
+      destruct (req_to c =? 0).
+      - split; [|reflexivity]. change (set_started true s2) with (set_head_t (head_t s2) (set_started true s2)).
+        apply Inv_started; auto.
+      - split; [|reflexivity]. apply Inv_started; auto. }
+    destruct I3 as [I3 ST3].
+    assert (F3 : dstate s3 = dstate s /\ messages s3 = messages s /\ res s3 = res s /\
+                 linger s3 = false /\ shutdown s3 = false /\ read_disc s3 = read_disc s /\ closed s3 = closed s /\
+                 quiet_stream s3 fut = quiet_stream s fut).
+    { subst s3. unfold closed. destruct (started s2); [repeat split; congruence|]. cbv zeta.
+      destruct (req_to c =? 0); cbn; repeat split; try congruence; exact Q2. }
+    destruct F3 as (D3 & M3 & R3 & L3 & SH3 & RD3 & C3 & Q3).
+    destruct (poll_request_Inv s3 fut I3 ST3) as (I4 & R4 & N4).
+    { intro X. rewrite M3. apply N9; [exact R0|congruence]. }
+    { intro C. destruct (i_term _ _ I3 C) as (_ & _ & _ & _ & [X|[X|X]]); auto. rewrite L3, SH3 in X. discriminate. }
+    fold s2. fold s3. set (s4 := fst (poll_request c s3)) in *.
+    destruct d.
+    - split; [apply Inv_disc; exact I4|]. unfold P9. intros _ X.
+      assert (E : dstate (take_payload_err true (set_read_disc true s4)) = dstate s4 /\ messages (take_payload_err true (set_read_disc true s4)) = messages s4).
+      { unfold take_payload_err. bm; split; reflexivity. }
+      destruct E as [Ed Em]. rewrite Em. apply N4. rewrite <- Ed. exact X.
+    - split; [exact I4|]. unfold P9. intros _ X. apply N4. exact X.
   Qed.
 End Quiet.
